@@ -2,6 +2,8 @@
 (* The function family and the contract of the bracketing root finders (C14).       *)
 (* A function is  f(x) = s * PROD_i (x - r_i)^(m_i)  (kind "poly") or               *)
 (* f(x) = s * sign(x - r_1) * (1 + |x|)  (kind "jump", discontinuous at r_1), or       *)
+(* f(x) = s * (x - r_1) / (1 + x^2)  (kind "decay": small far from the root, so that    *)
+(* the bracket end with the smaller |f| may be the one FAR from the root), or           *)
 (* f(x) = s  (kind "const"); roots and bracket ends are integers in eighths, so the    *)
 (* specification knows the sign of f at every bracket end and every sign change        *)
 (* inside the bracket.  With $VF_OUT the module writes the case lattice with its        *)
@@ -18,8 +20,11 @@ Shapes == << [kind |-> "poly", roots |-> <<3>>, mult |-> <<1>>],
              [kind |-> "poly", roots |-> <<-1000>>, mult |-> <<1>>],
              [kind |-> "jump", roots |-> <<5>>, mult |-> <<1>>],
              [kind |-> "jump", roots |-> <<-3>>, mult |-> <<1>>],
+             [kind |-> "decay", roots |-> <<8>>, mult |-> <<1>>],
+             [kind |-> "decay", roots |-> <<-24>>, mult |-> <<1>>],
              [kind |-> "const", roots |-> << >>, mult |-> << >>] >>
-Brackets == {<<a, b>> \in {-1100, -16, -8, -5, -4, 0, 1, 2, 3, 4, 8, 16, 48} \X {-1100, -16, -8, -5, -4, 0, 1, 2, 3, 4, 8, 16, 48} : a # b}
+Ends == {-80000000, -1100, -16, -8, -5, -4, 0, 1, 2, 3, 4, 8, 16, 48, 8000000}      \* incl. wide, lopsided brackets: -1e7 and 1e6
+Brackets == {<<a, b>> \in Ends \X Ends : a # b}
 
 Sgn(x) == IF x > 0 THEN 1 ELSE IF x < 0 THEN -1 ELSE 0
 RECURSIVE SignProd(_, _, _)
@@ -27,7 +32,7 @@ SignProd(sh, p, k) == IF k > Len(sh.roots) THEN 1
                       ELSE (IF sh.mult[k] % 2 = 0 THEN Sgn(p - sh.roots[k]) * Sgn(p - sh.roots[k]) ELSE Sgn(p - sh.roots[k])) * SignProd(sh, p, k + 1)
 (* sign of f(p)/s at the point p (in eighths) *)
 SignAt(sh, p) == IF sh.kind = "const" THEN 1
-                 ELSE IF sh.kind = "jump" THEN Sgn(p - sh.roots[1])
+                 ELSE IF sh.kind \in {"jump", "decay"} THEN Sgn(p - sh.roots[1])
                  ELSE SignProd(sh, p, 1)
 Lo(br) == IF br[1] < br[2] THEN br[1] ELSE br[2]
 Hi(br) == IF br[1] < br[2] THEN br[2] ELSE br[1]
